@@ -53,6 +53,17 @@ def core(ctx):
             yield {"kind": "count", "spec": spec, "assume": [["g", True], ["i0", True], ["i1", False]]}
             yield {"kind": "prob", "spec": spec, "node": "diff"}
             yield {"kind": "approx", "spec": spec, "assume": [["diff", True]]}
+    # long inverter / buffer chains: the DIMACS file gets several thousand clause lines
+    for n, rev in ((700, False), (2200, False), (2200, True), (4300, False)):
+        nodes = [["a", "input", [], False], ["b", "input", [], False]]
+        prev = "a"
+        for j in range(n):
+            nodes.append([f"n{j}", "not" if j % 3 else "buf", [prev], False])
+            prev = f"n{j}"
+        nodes.append(["y", "xor", [prev, "b"], True])
+        if rev:
+            nodes = nodes[::-1]
+        yield {"kind": "approx", "spec": {"name": "c", "nodes": nodes, "bbtypes": [], "insts": []}, "assume": [["y", True]] if n != 700 else []}
     for t in S.NARY:
         for k in (1, 2, 3):
             nodes = [[f"i{j}", "input", [], False] for j in range(k)]
